@@ -45,6 +45,7 @@ class DocBuilder:
        value_kinds list of value kinds (see Gen.value)
        repeat_id  probability of re-using an existing identifier
        redefault  probability (per document) that some scope's default namespace is declared anew between two records
+       reclock    probability that a time repeats the clock reading of an earlier one under another UTC offset
        twins      probability (per attribute) of repeating an earlier URI-valued attribute with the other kind of value
        malformed  probability of a deliberately invalid argument (error branches)
        paths      which entry paths to use: subset of {'new_record','factory','conv'}
@@ -55,12 +56,13 @@ class DocBuilder:
         self.w = w
         self.o = dict(clash=0.2, foreign=0.15, value_kinds=None, repeat_id=0.2, malformed=0.05,
                       paths=("new_record", "factory", "conv"), defaults=0.3, bare=True, fulluri=True,
-                      multi=0.2, anon=0.5, dup_formal=0.06, xml=False, subtypes=0.0, plain_binary=0.0, twins=0.0, redefault=0.0,
+                      multi=0.2, anon=0.5, dup_formal=0.06, xml=False, subtypes=0.0, plain_binary=0.0, twins=0.0, redefault=0.0, reclock=0.0,
                       free_bundle=float(__import__("os").environ.get("VERIF_FREE_BUNDLE", "0.15")))
         self.o.update(opts)
         self.ids = {}        # scope -> list of identifiers used (QualifiedName objects as returned)
         self.elems = {}      # scope -> list of (handle, kind)
         self.recs = {}       # scope -> list of record handles
+        self.times = []      # datetimes handed out so far (see option `reclock`)
         self.uri_vals = []   # (attribute name, URI-valued value) pairs handed out so far (see option `twins`)
 
     # ---- scopes
@@ -160,6 +162,13 @@ class DocBuilder:
 
     def time(self):
         t = self.g.dt()
+        if self.o["reclock"] and self.times and self.g.chance(self.o["reclock"]):
+            # the clock reading of an earlier time under another offset (or none): another instant, another value
+            import datetime as _dt
+            t0 = self.g.choice(self.times[-4:])
+            tzs = [None, _dt.timezone.utc, _dt.timezone(_dt.timedelta(hours=5)), _dt.timezone(_dt.timedelta(hours=-3))]
+            t = t0.replace(tzinfo=self.g.choice([z for z in tzs if z != t0.tzinfo]))
+        self.times.append(t)
         k = self.g.rng.random()
         if k < 0.5:
             return t
